@@ -14,7 +14,10 @@ Inductive op :=
 | OClone                                           (* c = ns.clone(): c == ns, no shared mutable node *)
 | OItems (branches : bool)                         (* list(ns.items(branches)); keys()/values() are its projections *)
 | OAsDict                                          (* ns.as_dict() *)
-| OInitDict (d : val).                             (* ns = Namespace(d), d a dict *)
+| OInitDict (d : val)                              (* ns = Namespace(d), d a dict *)
+| OGetSteps (k : str)                              (* ns[s1][s2]...[sn] for k = s1.s2.....sn: step-by-step reading *)
+| OEq (v : val)                                    (* ns == v (and v == ns, not (ns != v)), v a Namespace or anything else *)
+| OFromDict (d : val).                             (* ns = dict_to_namespace(d), d a dict *)
 
 Inductive out :=
 | OutUnit
@@ -105,6 +108,17 @@ Definition step_model (root : alist) (o : op) : out * alist * bool :=
               end) dd ([], false, false) in
           if failed then (OutFail, root, md) else (OutUnit, r, md)
       | _ => (OutFail, root, false)
+      end
+  | OGetSteps k =>
+      match ns_get_steps clash k root with
+      | Ok v => (OutVal v, root, meets_dict k root)
+      | Fail => (OutFail, root, meets_dict k root)
+      end
+  | OEq v => (OutBool (py_eq (VNs root) v), root, false)
+  | OFromDict d =>
+      match ns_from_dict clash d with
+      | Ok r => (OutUnit, r, false)
+      | Fail => (OutFail, root, false)
       end
   end.
 
